@@ -269,7 +269,10 @@ class boo_3d:
                 sij[i, :Neighborlist[i, 0]] = sijup.real / sijdown
 
             sijresults[:, 0] = np.arange(self.nparticle) + 1
-            sijresults[:, 1] = (np.where(sij > c, 1, 0)).sum(axis=1)
+            # count real bonds only: the zero padding beyond the coordination
+            # number must not pass a negative threshold
+            isbond = np.arange(self.Nmax)[np.newaxis, :] < Neighborlist[:, 0][:, np.newaxis]
+            sijresults[:, 1] = (np.where((sij > c) & isbond, 1, 0)).sum(axis=1)
             sijresults[:, 2] = Neighborlist[:, 0]
             results.append(sijresults)
             resultssij.append(np.column_stack(
